@@ -59,6 +59,16 @@ func TestMain(m *testing.M) {
 			"connection and handled when Connectedness is already NotConnected if it was the last one. Every handled Disconnected notification that leaves the peer without connection, and "+
 			"every quiescent point without connection, is an observation point: until a connection is opened again the number of addresses retained may not rise above the bound for "+
 			"unconnected peers (the address book's documented per-peer cap of 64), nor above what was there at the previous observation if that was more. "+
+			"Other components of the host are part of the history as well: up to two subscribers of the peerstore's address streams (Peerstore().AddrStream(ctx, peer), on p or, one in six, on a bystander) "+
+			"subscribe at any point (before the first connection, while connected, while p's addresses are on their finite lifetime, when that lifetime has just run out and the address book has not "+
+			"collected the entry yet, after the collection: once the last connection is closed the generator prefers sleeps of RecentlyConnectedAddrTTL -1ms / +1ms / +1s, then a subscription, then a new "+
+			"connection), with a consumer that does not read, reads everything at once, or takes up to 1 / 3 / 20 / 200 / 1000 addresses at generated steps, and cancel (at most four such operations per case, "+
+			"in addition to the drawn length). Nothing more is demanded of identify because of them: the identify-waits keep their deadlines (checked first at every quiescent point; if identify is found "+
+			"parked inside a call into the address book there, the time up to the last deadline passes without the store being read), all other rules apply as before, a stream on p may deliver only "+
+			"addresses rule 3 would accept in the store and a stream on a bystander only what the store held for it beforehand. A case whose goroutines are all parked, one of them on a sync.Mutex / "+
+			"sync.RWMutex (identify's address lock, the address book's lock), can never resume inside a synctest bubble and is recognised by that state from outside (watch_test.go: decided by the "+
+			"goroutine states, not by elapsed time); it fails: the lock is held by nobody who can run, so the message or Disconnected handling waiting for it, and every later one on this host, "+
+			"never finishes and the waits behind it are never released. "+
 			"Messages are structured: 0..3000 protocols, 0..1500 listen addresses of every class (loopback, private, public, dns, relay, unroutable, own / foreign / double /p2p suffix, "+
 			"unparsable), public key of p / of another peer / garbage / empty, signed records of ten kinds (valid, somebody else's, signed by p naming another peer, signed by another peer "+
 			"naming p, wrong domain, wrong payload type, corrupted, garbage, oversized, >500 addresses), every field present, absent or repeated over 1..12 chunks, plus garbage, oversized "+
@@ -66,7 +76,9 @@ func TestMain(m *testing.M) {
 			"Oracle: the reference model is built by construction from the generator (address classes, record validity, key ownership); see the test comments. "+
 			"NON-TRIVIAL = a consumed message carried material of another peer (key, record, /p2p suffix) or exceeded a cap, or a delivery ended at or after the close of its "+
 			"connection, or an armed close fired (a connection was closed at a harness-chosen call of identify into its host), or a held message was released by the close of its connection, "+
-			"or the last connection closed with addresses in the store after the service had been closed, or on an address book without room for them under its global limit. DISTINCT = distinct (step kinds, connection, delays, "+
+			"or the last connection closed with addresses in the store after the service had been closed, or on an address book without room for them under its global limit, "+
+			"or identify stored addresses for p while the consumer of an address stream on p had not read what was there, or handled a message after a subscription taken when all addresses of p had expired "+
+			"and were not collected yet. DISTINCT = distinct (step kinds, connection, delays, "+
 			"message structure) history. FuzzIdentifyStream (seed corpus in the quick tier, coverage-guided campaign in the thorough tier): non-trivial = the bytes were consumed as a message; "+
 			"one bit of its mode byte selects the late schedule (the only connection is gone, Disconnected handled, before identify handles the stream's content; at most 64 addresses may be retained).",
 		"multiaddr parsing is trusted to be injective on the generated templates; address classes are assigned by construction and cross-checked against manet in TestAddressTemplates",
@@ -75,6 +87,9 @@ func TestMain(m *testing.M) {
 			"with a small global limit the oracle demands nothing about addresses being KEPT beyond 'what was stored while surely connected does not expire while the connection stays open'",
 			"after IDService.Close the harness keeps using the service's IdentifyWait and installed stream handlers as a host's other components may; the unchanged service handles them as before",
 		"same-instant events race under the Go scheduler; the oracle accepts every order of them",
+		"the harness never waits for virtual time while it holds, or runs inside a callback made under, a lock of identify or of the peerstore, and its stream consumers hold no lock: a frozen case "+
+			"(every goroutine parked, one on a mutex) is therefore a stall of the code under test that no passing of time ends; such a case is abandoned (cannot be torn down) and reported as a failure. "+
+			"TestWatcherSelfCheck guards the dependence of that recognition on the runtime's goroutine dump format; if it stopped recognising, a frozen case would end as a hang (inconclusive), not as a pass",
 		"one authenticated remote peer per case; the other peers are bystanders that never speak",
 	)
 	hx.Main(m)
@@ -96,6 +111,11 @@ const (
 	// network, its connections and the peerstore live on: connections that close afterwards still leave
 	// the peer's addresses on a finite lifetime
 	stCloseService
+	// another component of the host uses the peerstore's address streams while identify runs
+	// (streams_test.go): subscribe (AddrStream(ctx, peer)), read a few addresses, cancel
+	stSubscribe
+	stDrain
+	stCancelSub
 )
 
 // armPoint says where, relative to what identify does with the host it was given, an
@@ -112,7 +132,8 @@ var pointNames = []string{"inside-connected-address-update", "after-connectednes
 // a consumption makes about a dozen calls about p, the handling of a disconnect five
 const maxHostCallK = 16
 
-var stepNames = []string{"open", "push", "close", "sleep", "wait", "close-inside-next-consumption", "close-service"}
+var stepNames = []string{"open", "push", "close", "sleep", "wait", "close-inside-next-consumption", "close-service",
+	"addr-stream-subscribe", "addr-stream-read", "addr-stream-cancel"}
 
 const (
 	negoOK = iota
@@ -187,6 +208,9 @@ type step struct {
 	k     int
 	// sleep
 	d time.Duration
+	// address stream: which subscriber, on whom (-1: the remote peer p, else a bystander), how its consumer
+	// behaves; for a read step k is the number of addresses the consumer takes if they are there
+	sub, subPeer, subMode int
 }
 
 type scenario struct {
@@ -233,6 +257,12 @@ func drawDelivery(rt *rapid.T, w *world, T time.Duration, src int, push bool, la
 
 const maxConns = 4
 
+// address streams per case and operations on them per case
+const (
+	maxSubs      = 2
+	maxStreamOps = 4
+)
+
 func drawScenario(rt *rapid.T) *scenario {
 	sc := &scenario{w: drawWorld(rt)}
 	sc.timeout = []time.Duration{2 * time.Second, 5 * time.Second}[rapid.IntRange(0, 1).Draw(rt, "timeout")]
@@ -259,6 +289,15 @@ func drawScenario(rt *rapid.T) *scenario {
 	src := 0
 	heldOn := -1 // connection with a held delivery that, as far as the generator knows, is still open
 	svcClosed := false
+	// address streams (streams_test.go): subscribers so far (live or cancelled), how their consumers behave, and
+	// the number of stream operations (additional operations: the history keeps the length it was drawn with)
+	var subLive []bool
+	var subModes []int
+	streamOps := 0
+	// virtual time slept since the generator last saw a close leave p without an open connection
+	// (<0: p has, or never had, a connection): the addresses of p are on their finite lifetime R
+	away := time.Duration(-1)
+	R := peerstore.RecentlyConnectedAddrTTL
 	for i := 0; i < n; i++ {
 		var open, all []int
 		for c, s := range status {
@@ -309,6 +348,30 @@ func drawScenario(rt *rapid.T) *scenario {
 				choices = append(choices, stCloseService)
 			}
 		}
+		if away >= 0 && away < R-time.Millisecond {
+			// without a connection the next thing that happens to p's addresses is the end of their lifetime
+			choices = append(choices, stSleep, stSleep, stSleep)
+		}
+		if streamOps < maxStreamOps {
+			if len(subLive) < maxSubs {
+				choices = append(choices, stSubscribe)
+				if away >= R-time.Millisecond {
+					// the addresses of p have run out or are about to: when a component that wants to hear about p asks again
+					choices = append(choices, stSubscribe, stSubscribe, stSubscribe, stSubscribe)
+				}
+			}
+			anyLive, anyStepwise := false, false
+			for j, live := range subLive {
+				anyLive = anyLive || live
+				anyStepwise = anyStepwise || (live && subModes[j] == smStepwise)
+			}
+			if anyStepwise {
+				choices = append(choices, stDrain, stDrain)
+			}
+			if anyLive {
+				choices = append(choices, stCancelSub)
+			}
+		}
 		if len(choices) == 0 {
 			break
 		}
@@ -319,6 +382,7 @@ func drawScenario(rt *rapid.T) *scenario {
 		case stOpen:
 			st.conn = len(status)
 			status = append(status, 1)
+			away = -1
 			st.remoteClass = []int{rcPublic, rcPublic, rcPrivate, rcPrivate, rcUnroutable}[rapid.IntRange(0, 4).Draw(rt, label+"-remoteClass")]
 			st.limited = rapid.IntRange(0, 5).Draw(rt, label+"-limited") == 4
 			st.lateConnected = rapid.IntRange(0, 7).Draw(rt, label+"-lateConnected") == 5
@@ -364,7 +428,12 @@ func drawScenario(rt *rapid.T) *scenario {
 				st.resetStreams = false // the streams outlive the connection: what was read from it can still be handled
 			}
 		case stSleep:
-			st.d = []time.Duration{time.Millisecond, time.Second, T, T + time.Millisecond, 2 * time.Minute, 16 * time.Minute}[rapid.IntRange(0, 5).Draw(rt, label+"-d")]
+			// (the instants around the end of the finite lifetime R are boundaries of the property)
+			pal := []time.Duration{time.Millisecond, time.Second, T, T + time.Millisecond, 2 * time.Minute, 16 * time.Minute, R - time.Millisecond, R + time.Millisecond, R + time.Second}
+			if away >= 0 {
+				pal = []time.Duration{R + time.Millisecond, R + time.Second, R - time.Millisecond, R + time.Second, R + time.Millisecond, 16 * time.Minute, 2 * time.Minute, time.Millisecond, time.Second, T}
+			}
+			st.d = pal[rapid.IntRange(0, len(pal)-1).Draw(rt, label+"-d")]
 		case stWait:
 			st.conn = all[rapid.IntRange(0, len(all)-1).Draw(rt, label+"-conn")]
 		case stArmClose:
@@ -384,6 +453,55 @@ func drawScenario(rt *rapid.T) *scenario {
 		case stCloseService:
 			svcClosed = true
 			n++ // an additional operation: the history keeps the length it was drawn with
+		case stSubscribe:
+			st.sub = len(subLive)
+			st.subPeer = -1
+			if rapid.IntRange(0, 5).Draw(rt, label+"-subOn") == 4 {
+				st.subPeer = rapid.IntRange(0, len(sc.w.others)-1).Draw(rt, label+"-subWho")
+			}
+			st.subMode = []int{smIdle, smStepwise, smEager, smIdle, smStepwise, smIdle, smEager}[rapid.IntRange(0, 6).Draw(rt, label+"-subMode")]
+			subLive = append(subLive, true)
+			subModes = append(subModes, st.subMode)
+			streamOps++
+			n++
+		case stDrain:
+			var cands []int
+			for j, live := range subLive {
+				if live && subModes[j] == smStepwise {
+					cands = append(cands, j)
+				}
+			}
+			st.sub = cands[rapid.IntRange(0, len(cands)-1).Draw(rt, label+"-sub")]
+			st.k = []int{1, 3, 20, 200, 1000}[rapid.IntRange(0, 4).Draw(rt, label+"-reads")]
+			streamOps++
+			n++
+		case stCancelSub:
+			var cands []int
+			for j, live := range subLive {
+				if live {
+					cands = append(cands, j)
+				}
+			}
+			st.sub = cands[rapid.IntRange(0, len(cands)-1).Draw(rt, label+"-sub")]
+			subLive[st.sub] = false
+			streamOps++
+			n++
+		}
+		switch st.kind {
+		case stClose, stArmClose:
+			left := 0
+			for _, s := range status {
+				if s == 1 {
+					left++
+				}
+			}
+			if left == 0 {
+				away = 0
+			}
+		case stSleep:
+			if away >= 0 {
+				away += st.d
+			}
 		}
 		sc.steps = append(sc.steps, st)
 	}
@@ -404,6 +522,12 @@ func (sc *scenario) fingerprint() string {
 			fmt.Fprintf(&b, "%v/%d/%d", st.resetStreams, st.point, st.k)
 		case stSleep:
 			fmt.Fprintf(&b, "%v", st.d)
+		case stSubscribe:
+			fmt.Fprintf(&b, "%d/%d/%d", st.sub, st.subPeer, st.subMode)
+		case stDrain:
+			fmt.Fprintf(&b, "%d/%d", st.sub, st.k)
+		case stCancelSub:
+			fmt.Fprintf(&b, "%d", st.sub)
 		}
 		if st.dl != nil {
 			d := st.dl
@@ -427,6 +551,16 @@ func (sc *scenario) describe() map[string]any {
 			s += fmt.Sprintf(" resetStreams=%v point=%s k=%d", st.resetStreams, pointNames[st.point], st.k)
 		case stSleep:
 			s += fmt.Sprintf(" d=%v", st.d)
+		case stSubscribe:
+			on := "the-remote-peer"
+			if st.subPeer >= 0 {
+				on = fmt.Sprintf("bystander-%d", st.subPeer)
+			}
+			s = fmt.Sprintf("%s subscriber=%d on=%s consumer=%s settle=%v", stepNames[st.kind], st.sub, on, subModeNames[st.subMode], st.settle)
+		case stDrain:
+			s = fmt.Sprintf("%s subscriber=%d up-to=%d settle=%v", stepNames[st.kind], st.sub, st.k, st.settle)
+		case stCancelSub:
+			s = fmt.Sprintf("%s subscriber=%d settle=%v", stepNames[st.kind], st.sub, st.settle)
 		}
 		if st.dl != nil {
 			d := st.dl
@@ -547,6 +681,14 @@ type runner struct {
 	// coverage: the last connection closed (with addresses in the store) after the service had been
 	// closed / on an address book whose global limit left no room for all of them
 	svcRace, limitHit bool
+
+	// address streams other components hold (streams_test.go)
+	subs []*addrSub
+	// coverage: identify wrote addresses while a consumer was not reading, or handled a message after a
+	// subscription taken when all addresses of the peer had expired
+	streamRace bool
+	// identify was found parked inside the address book at a quiescent point
+	parkedInBook bool
 
 	// coverage
 	raced, failurePath, consumedInteresting bool
@@ -1110,6 +1252,32 @@ func (r *runner) check(where string) {
 	r.reconcile()
 	rt, p := r.rt, r.w.p.ID
 	now := r.now()
+	// 8. identify-waits are released (first: the rules below read the store, and a reader of a store that
+	// identify is stuck in would be stuck with it)
+	r.checkWaits(where, now)
+	if r.h.calls.inBook.Load() > 0 {
+		// Everything is at rest and a call identify made into the address book has not returned: identify is
+		// parked in there, waiting for another component (on the unchanged tree the book hands addresses to
+		// the goroutine of each stream, which always takes them; this is never seen). Nothing says how long a
+		// component may take, but the waits have their deadlines: let the time pass, reading nothing.
+		r.parkedInBook = true
+		r.label("observed:identify-parked-inside-the-address-book-at-a-quiescent-point")
+		last := now
+		for _, w := range r.waits {
+			if w.deadline > last {
+				last = w.deadline
+			}
+		}
+		if last > now {
+			time.Sleep(last - now)
+			synctest.Wait()
+			r.checkWaits(where+", then at the last deadline of an identify-wait", r.now())
+		}
+		if r.h.calls.inBook.Load() > 0 {
+			return // still in there: the store cannot be read
+		}
+		now = r.now()
+	}
 	// 1. nothing is attributed to another peer
 	for _, q := range r.ps.universe() {
 		if q == p {
@@ -1176,13 +1344,18 @@ func (r *runner) check(where string) {
 	if r.openCount() == 0 && pend == 0 && len(r.conns) > 0 {
 		r.observeUnconnected(where, addrs)
 	}
-	// 8. identify-waits are released
+	// 10. what the address streams of other components delivered
+	r.checkStreams(where, addrs)
+}
+
+// checkWaits: every identify-wait whose deadline has passed is released.
+func (r *runner) checkWaits(where string, now time.Duration) {
 	for _, w := range r.waits {
 		if now >= w.deadline {
 			select {
 			case <-w.ch:
 			default:
-				rt.Fatalf("%s: %s still blocks at %v; it had to be released by %v (identify timeout %v)", where, w.what, now, w.deadline, r.T)
+				r.rt.Fatalf("%s: %s still blocks at %v; it had to be released by %v (identify timeout %v)", where, w.what, now, w.deadline, r.T)
 			}
 		}
 	}
@@ -1386,6 +1559,7 @@ func (r *runner) run() {
 			return
 		}
 		cleaned = true
+		r.cancelSubs() // first: whoever waits for a consumer goes on
 		r.rmu.Lock()
 		rs := append([]*memnet.Conn(nil), r.remotes...)
 		r.rmu.Unlock()
@@ -1450,6 +1624,12 @@ func (r *runner) run() {
 			r.doWait(st)
 		case stCloseService:
 			r.doCloseService()
+		case stSubscribe:
+			r.doSubscribe(st)
+		case stDrain:
+			r.doDrain(st)
+		case stCancelSub:
+			r.doCancelSub(st)
 		}
 		r.atRest = false
 		if st.settle {
@@ -1526,6 +1706,14 @@ func (r *runner) run() {
 			rt.Fatalf("%s was never released (now %v, identify timeout %v)", w.what, r.now(), r.T)
 		}
 	}
+	if r.h.calls.inBook.Load() > 0 {
+		// (no wait depends on it: a push handled after its connection's wait was released.) The lifetimes
+		// cannot be watched while identify sits in the address book; the case ends here.
+		r.label("ended-early:identify-parked-inside-the-address-book")
+		r.streamFacts()
+		cleanup()
+		return
+	}
 	time.Sleep(peerstore.RecentlyConnectedAddrTTL + time.Second)
 	synctest.Wait()
 	r.check("RecentlyConnectedAddrTTL after the end")
@@ -1559,6 +1747,7 @@ func (r *runner) run() {
 			r.consumedInteresting = true
 		}
 	}
+	r.streamFacts()
 	cleanup()
 }
 
@@ -1568,7 +1757,7 @@ func TestIdentifyAttribution(t *testing.T) {
 		sc := drawScenario(rt)
 		r := &runner{t: t, rt: rt, sc: sc, w: sc.w, T: sc.timeout, allowed: map[string]struct{}{}, protos: map[string]struct{}{}, usableRec: map[string]struct{}{},
 			firedAt: -1, unconnBase: -1, svcClosedAt: -1, labels: map[string]struct{}{}, asyncLabels: map[string]struct{}{}}
-		hx.Bubble(t, rt, r.run)
+		watchedBubble(t, rt, r.run)
 
 		// race position: a delivery that ends at or after the close of its connection
 		closeAt := map[int]time.Duration{}
@@ -1630,7 +1819,7 @@ func TestIdentifyAttribution(t *testing.T) {
 			labels = append(labels, "wait-released-by-failure")
 		}
 		sort.Strings(labels)
-		nontrivial := r.consumedInteresting || r.raced || r.svcRace || r.limitHit
+		nontrivial := r.consumedInteresting || r.raced || r.svcRace || r.limitHit || r.streamRace
 		stats.Case(name, sc.fingerprint(), nontrivial, labels...)
 		if stats.WantSample(name) {
 			stats.Sample(name, sc.describe())
